@@ -38,6 +38,8 @@ func genC18(r *simrt.Rand, tier string, idx int) *hx.Program {
 	p.P["sticky"] = []int64{50, 80, 95}[r.Intn(3)]
 	p.P["lockyield"] = []int64{10, 30, 100}[r.Intn(3)]
 	p.P["publish_timeout_ms"] = []int64{300, 1000}[r.Intn(2)]
+	p.P["timeskip"] = []int64{0, 0, 0, 3}[r.Intn(4)] // time passes while tasks are runnable (dispatcher back-off, publish time-outs and checkpoint timers fire inside operations)
+	p.P["skipmax_ms"] = []int64{50, 500, 2000}[r.Intn(3)]
 	p.P["cursors"] = int64(r.Intn(2)) // with the cursors stream configured a promotion does more work (and commits more) before it completes
 	n := 6 + r.Intn(24)
 	if tier == "thorough" {
@@ -153,6 +155,7 @@ func execC18(t *testing.T, prog *hx.Program, dec *simrt.Decider, verbose bool) *
 			h.rpc(n, name, f)
 			ops++
 		}
+		h.s.SetTimeSkips(true)
 		for _, op := range prog.Ops {
 			if h.stop || h.oc.Trouble != "" || len(h.s.Panics) > 0 {
 				break
@@ -256,6 +259,7 @@ func execC18(t *testing.T, prog *hx.Program, dec *simrt.Decider, verbose bool) *
 			return
 		}
 		// faults stop; the dispatcher's back-off is capped at 10 s
+		h.s.SetTimeSkips(false)
 		h.disarmFSCrashes()
 		failing = false
 		if !up() {
@@ -308,7 +312,15 @@ func execC18(t *testing.T, prog *hx.Program, dec *simrt.Decider, verbose bool) *
 		if len(h.s.Panics) > 0 {
 			return
 		}
-		// read the activity log
+		// read the activity log (resumed first if the program's last word was to pause it)
+		if p := n.srv.metadata.GetPartition(activityStream, 0); p != nil && p.IsPaused() {
+			h.rpc(n, "resume-activity", func(api *apiServer) {
+				ctx, cancel := ctxT(5 * time.Second)
+				defer cancel()
+				n.srv.metadata.ResumeStream(ctx, &proto.ResumeStreamOp{Stream: activityStream, Partitions: []int32{0}})
+			})
+			simrt.Sleep(200 * time.Millisecond)
+		}
 		msgs, err := h.readLog(n, activityStream, 0)
 		if err != nil {
 			h.oc.Trouble = "read activity log: " + err.Error()
